@@ -1,6 +1,7 @@
 """C11 -- a clear copy-number step is found and localised; flat profiles stay unsegmented.
 
-Claimed at level `other` (partial, DESIGN section 5 C11 / section 7).  Three parts:
+Claimed at level `proof`: the discrete core, the clean-step clauses and the deterministic BOUNDED-noise clauses are theorems
+(DESIGN section 5 C11); Gaussian noise beyond the bound and hmm-germline are monitored by sampling.  Three parts:
 
 (a) correspondence of the discrete HaarSeg core: cnvlib.segmentation.haar.HaarConv /
     FindLocalPeaks / UnifyLevels / SegmentByPeaks / FDRThres / haarSeg against the
@@ -22,7 +23,7 @@ import numpy as np
 import vlib
 from vlib import Err
 
-LEVEL = 'other'
+LEVEL = 'proof'
 
 GRID = 1024          # signal values are k/1024
 WGRID = 64           # weights are k/64
